@@ -15,6 +15,7 @@ import (
 	"errors"
 	"io"
 	"os"
+	"reflect"
 	"time"
 
 	"github.com/paulmach/osm"
@@ -308,12 +309,28 @@ func runSkipResume(c SkipCase, raw json.RawMessage) M {
 	hdr := "none"
 	if c.Header {
 		f.Header = &pbfw.Header{Required: []string{"OsmSchema-V0.6", "DenseNodes"}}
+		if c.Variant%2 == 1 {
+			f.Header.Required = append(f.Header.Required, "HistoricalInformation")
+		}
 		hdr = "ok"
 	}
 	blocks := []M{}
 	for b := 1; b <= c.NB; b++ {
 		typ := (b + c.Variant) % 3
 		blk, n := typedBlock(b, typ)
+		if c.Variant%2 == 1 { // a history file: deleted versions
+			for gi := range blk.Groups {
+				if d := blk.Groups[gi].Dense; d != nil && d.Info != nil {
+					d.Info.Visibles = []bool{false, true}
+				}
+				for wi := range blk.Groups[gi].Ways {
+					blk.Groups[gi].Ways[wi].Info.Visible = pbfw.Bool(wi%2 == 1)
+				}
+				for ri := range blk.Groups[gi].Relations {
+					blk.Groups[gi].Relations[ri].Info.Visible = pbfw.Bool(false)
+				}
+			}
+		}
 		if c.Skip[typ] {
 			n = 0
 		}
@@ -350,6 +367,7 @@ func runSkipResume(c SkipCase, raw json.RawMessage) M {
 	cfg := M{"n": c.N, "blocks": blocks, "endkind": "eof", "hdr": hdr}
 	s := newScanner(data)
 	H := []M{}
+	full := map[int64]osm.Object{} // objects of the full scan, by id: a resumed scan must return equal objects
 	seen := map[int64]bool{}
 	var offs []int64
 	for {
@@ -361,6 +379,7 @@ func runSkipResume(c SkipCase, raw json.RawMessage) M {
 			break
 		}
 		id := int64(s.Object().ObjectID().Ref())
+		full[id] = s.Object()
 		H = append(H, M{"op": "ret", "ok": true, "blk": int(id / 100), "idx": int(id % 100), "cur": absOff(cur), "prev": absOff(prev)})
 		if !seen[cur] {
 			seen[cur] = true
@@ -370,11 +389,18 @@ func runSkipResume(c SkipCase, raw json.RawMessage) M {
 	H = append(H, M{"op": "err", "class": errClass(s.Err())})
 	s.Close()
 	resume := []M{}
-	for _, off := range offs {
+	for k, off := range offs {
 		s2 := newScanner(data[off:])
+		if (k+c.Variant)%2 == 0 {
+			s2.Header() // asking a resumed scanner for its (absent) header must not disturb the scan
+		}
 		objs := [][]int{}
 		for s2.Scan() {
 			id := int64(s2.Object().ObjectID().Ref())
+			if o, ok := full[id]; !ok || !reflect.DeepEqual(o, s2.Object()) {
+				objs = append(objs, []int{-1, -1}) // not the object the full scan returned
+				continue
+			}
 			objs = append(objs, []int{int(id / 100), int(id % 100)})
 		}
 		resume = append(resume, M{"from": blkAt(off), "objs": objs, "err": errClass(s2.Err())})
